@@ -241,6 +241,45 @@ func visitedGuard(comp map[*ssa.Function]bool, p *core.Program) (string, bool) {
 // Accepted idiom: the store sits under `if F == nil` and the same block stores a freshly made,
 // non-nil value to F (so the condition is false for every nested call).
 func reinitInside(comp map[*ssa.Function]bool, id string) string {
+	// a set that travels as a parameter: every call inside the cycle to a function that takes such a
+	// set must hand on the set it was given (a parameter of the caller), not a fresh one - a wrapper of
+	// the cycle that makes its own set resets the guard on every round
+	if strings.HasPrefix(id, "param:") {
+		typ := id[strings.LastIndex(id, ":")+1:]
+		for f := range comp {
+			for _, b := range f.Blocks {
+				for _, in := range b.Instrs {
+					ci, ok := in.(ssa.CallInstruction)
+					if !ok {
+						continue
+					}
+					g := ci.Common().StaticCallee()
+					if g == nil || !comp[g] {
+						continue
+					}
+					for ai, a := range ci.Common().Args {
+						if a.Type().String() != typ || ai >= len(g.Params) {
+							continue
+						}
+						v := a
+						for i := 0; i < 4; i++ {
+							if u, isU := v.(*ssa.UnOp); isU {
+								v = u.X
+								continue
+							}
+							break
+						}
+						switch v.(type) {
+						case *ssa.Parameter, *ssa.FreeVar:
+						default:
+							return "the visited set handed to " + core.FuncName(g) + " in " + core.FuncName(f) + " is not the one the caller received"
+						}
+					}
+				}
+			}
+		}
+		return ""
+	}
 	if !strings.HasPrefix(id, "field:") {
 		return ""
 	}
